@@ -320,8 +320,14 @@ static void do_ops(char* ops, int in_cb) {
       for (j = 0; j < nh; j++) {
         char buf[600]; size_t sz = sizeof buf; int r;
         printf("%d%d", uv_is_active((uv_handle_t*) &H[j]->h) ? 1 : 0, H[j]->closing);
-        r = H[j]->closed ? UV_EINVAL : uv_fs_poll_getpath(&H[j]->h, buf, &sz);
-        if (r == 0) printf("%d,", path_id(buf)); else printf("-,");
+        /* "-" = UV_EINVAL with *size set to 0 (what a handle that is not active must answer);
+           a path index = 0 and that path; anything else is printed as !<rc>:<size> */
+        if (H[j]->closed) { printf("-,"); continue; }
+        buf[0] = 0;
+        r = uv_fs_poll_getpath(&H[j]->h, buf, &sz);
+        if (r == 0) printf("%d,", path_id(buf));
+        else if (r == UV_EINVAL && sz == 0) printf("-,");
+        else printf("!%d:%lu,", r, (unsigned long) sz);
       }
       printf(" ");
       break; }
